@@ -359,11 +359,32 @@ fn part_cold_mode(raw: &RawKey, base: &Env, model: &BTreeMap<String, LTree>, rep
 /// (d) every subset of hot files removed; the hot/cold repair must recreate the hot store
 fn part_repair(raw: &RawKey, base: &Env, model: &BTreeMap<String, LTree>, rep: &mut Report, args: &Args) -> Result<(), (String, String)> {
     let stores = base.stores();
-    let hot_files: Vec<(FileType, rustic_core::Id)> = stores[1].files.iter().map(|(t, i, _)| (*t, *i)).collect();
+    let listed: Vec<(FileType, rustic_core::Id)> = stores[1].files.iter().map(|(t, i, _)| (*t, *i)).collect();
+    // interleave the file types (config, key, snapshot, index, pack, config, ...) so that the subsets
+    // of the first k files reach every type, index files written late in the history included
+    let mut by_type: Vec<std::collections::VecDeque<(FileType, rustic_core::Id)>> = [FileType::Config, FileType::Key, FileType::Snapshot, FileType::Index, FileType::Pack]
+        .iter()
+        .map(|t| listed.iter().filter(|(ft, _)| ft == t).copied().collect())
+        .collect();
+    let mut hot_files: Vec<(FileType, rustic_core::Id)> = Vec::new();
+    while by_type.iter().any(|q| !q.is_empty()) {
+        for q in &mut by_type {
+            if let Some(f) = q.pop_front() {
+                hot_files.push(f);
+            }
+        }
+    }
     let n = hot_files.len();
     let k = n.min(if args.quick() { 9 } else { 12 });
-    rep.note(format!("hot store holds {n} files; all subsets of the first {k} are removed"));
-    for mask in 1u32..(1u32 << k) {
+    rep.note(format!("hot store holds {n} files; all subsets of the first {k} (types interleaved: {:?}) are removed", hot_files.iter().take(k).map(|(t, _)| vkit::backend::ft_name(*t)).collect::<Vec<_>>()));
+    // a file only the hot store holds (a write cut off between the hot and the cold store): a second
+    // copy of an index file under another name - the repair then has work in both directions for
+    // one file type whenever an index file is also missing in the hot store
+    let hot_only: Option<(rustic_core::Id, bytes::Bytes)> = stores[1].ids(FileType::Index).first().map(|id| {
+        let name: rustic_core::Id = "77".repeat(32).parse().expect("id");
+        (name, stores[1].get(FileType::Index, id).unwrap().clone())
+    });
+    for (mask, with_hot_only) in (1u32..(1u32 << k)).flat_map(|m| [(m, false), (m, true)]) {
         if mask as usize % args.nshards != args.shard {
             continue;
         }
@@ -372,6 +393,11 @@ fn part_repair(raw: &RawKey, base: &Env, model: &BTreeMap<String, LTree>, rep: &
             if mask & (1 << i) != 0 {
                 _ = hot.del(*t, id);
             }
+        }
+        if with_hot_only {
+            let Some((name, data)) = &hot_only else { continue };
+            hot.put(FileType::Index, name, data.clone());
+            rep.inc("repairs_with_a_hot_only_file");
         }
         let config_removed = hot.get(FileType::Config, &rustic_core::Id::default()).is_none();
         let mut e = Env::new(vkit::backend::World::from_stores(vec![stores[0].clone(), hot]).shared());
@@ -389,7 +415,7 @@ fn part_repair(raw: &RawKey, base: &Env, model: &BTreeMap<String, LTree>, rep: &
             };
             es(repo.repair_hotcold_packs(false))
         })();
-        let case = json!({"part": "repair", "removed_hot_files_mask": mask});
+        let case = json!({"part": "repair", "removed_hot_files_mask": mask, "hot_only_index_copy": with_hot_only});
         if let Err(m) = r {
             let sig = format!("C16/repair/error{}", if config_removed { "/config-removed" } else { "" });
             if !rep.has_violation(&sig) {
@@ -405,7 +431,7 @@ fn part_repair(raw: &RawKey, base: &Env, model: &BTreeMap<String, LTree>, rep: &
                 rep.violation(sig, format!("after removing hot files {mask:b}: {msg}"), case);
             }
         } else {
-            _ = rep.distinct("state", &("repaired", mask));
+            _ = rep.distinct("state", &("repaired", mask, with_hot_only));
         }
     }
     Ok(())
@@ -414,7 +440,7 @@ fn part_repair(raw: &RawKey, base: &Env, model: &BTreeMap<String, LTree>, rep: &
 pub fn run(args: &Args, rep: &mut Report) {
     let raw = RawKey::from_master(&master_key());
     std::panic::set_hook(Box::new(|_| {}));
-    rep.set_meta("bounds", json!("one 11-step history (init, 3 backups, key add/delete, forget, prune mark, prune delete+repack-all, config change, copy-into) on a hot/cold pair and on a single store: every (cold,hot) state after every mutating backend call is checked; cold-mode store for restore, prune repack, repair-index --read-all; every subset of the first 9 (quick) / 12 (thorough) hot files removed before the hot/cold repair"));
+    rep.set_meta("bounds", json!("one 11-step history (init, 3 backups, key add/delete, forget, prune mark, prune delete+repack-all, config change, copy-into) on a hot/cold pair and on a single store: every (cold,hot) state after every mutating backend call is checked; cold-mode store for restore, prune repack, repair-index --read-all; every subset of the first 9 (quick) / 12 (thorough) hot files removed before the hot/cold repair, each with and without a file that only the hot store holds"));
     if args.replay.is_some() {
         // the parts are small: a replay re-runs everything
         rep.note("replay re-runs the complete check");
